@@ -258,6 +258,22 @@ let () =
     | _ -> "bad-args")
 
 let () =
+  reg "c13.locate" (fun a -> match a with
+    | np :: sizes ->
+      (match locate (List.map z_of_string sizes) (z_of_string np) with
+       | Some g -> String.concat " " (List.map string_of_z [g.g_difat; g.g_fat; g.g_minifat; g.g_dir; g.g_big; g.g_mini; g.g_ministream_start; g.g_end])
+       | None -> "outoffuel")
+    | _ -> "bad-args");
+  (* package layer with the identity "cipher": exposes size prefix, padding and truncation *)
+  reg "c13.pkg" (fun a -> match a with
+    | [b] -> let enc = encrypt_pkg (fun x -> x) (bytes_of_hex b) in
+      hex_of_bytes enc ^ " " ^ show_res hex_of_bytes (decrypt_pkg (fun x -> x) enc)
+    | _ -> "bad-args");
+  reg "c13.decrypt" (fun a -> match a with
+    | [s] -> show_res hex_of_bytes (decrypt_pkg (fun x -> x) (bytes_of_hex s))
+    | _ -> "bad-args")
+
+let () =
   reg "c17.run" (fun a ->
       let (ids, r) = run_styles (List.map z_of_string a) init_reg in
       "ids " ^ String.concat "," (List.map string_of_z ids) ^ " size " ^ string_of_int (List.length r))
